@@ -1562,13 +1562,25 @@ func (w *dworld) phaseLookups(peak *int) (hs []*dpeer) {
 			if pl.expPl && took+2*lagw <= 200*time.Millisecond && !(pl.exp+3 >= now0 && pl.exp <= dvNow()+3) && len(pl.groups) > 0 {
 				// a reply with a hostile expiration: handed to the callback iff not expired (model disc_reply; the
 				// expiration itself is compared through disc_handle)
+				// "handed to the callback" = the node pinged the addresses the reply names. One pinged address can be a
+				// coincidence (another reply of the round, or an older table entry, naming the same address: 1 case in
+				// 231 000 of a thorough run, DESIGN §8): with several probe entries ALL of them must have been pinged
 				probe, seen := false, false
+				nProbe, nSeen := 0, 0
 				for _, e := range pl.groups[0] {
 					nip := net.IP(e.IP)
 					if e.tie && e.UDP != 0 && !nip.IsMulticast() && !nip.IsUnspecified() {
 						probe = true
-						seen = seen || pinged[dvDest(e)]
+						nProbe++
+						if pinged[dvDest(e)] {
+							nSeen++
+						}
 					}
+				}
+				seen = nSeen > 0
+				if nProbe >= 2 && nSeen > 0 && nSeen < nProbe && dvExpired(pl.exp) {
+					w.count("discv:reply-probe-ambiguous")
+					probe = false
 				}
 				if probe {
 					w.tcase("disc_reply", Tup(true, dvExpired(pl.exp), true), seen, "neighbors:"+pl.name)
